@@ -87,11 +87,8 @@ def rectifyingRadiusSeries (a f : α) : α :=
 def authalicRadiusSqSeries (a f : α) : α :=
   a * (a + ctorB a f) / (2 : α) * polyval (Gen.AuxSeries.authRadius.map ofRat) (ctorN f)
 
-/-! ### Carlson duplication (one step) and the symmetric-polynomial tail of `RF`, for the invariants in `Props/C15` -/
-
-/-- `λ = √x√y + √y√z + √z√x` and the duplicated arguments `(x+λ)/4 …` -/
-def dupLam (sx sy sz : α) : α := sx * sy + sy * sz + sz * sx
-def dupStep (x lam : α) : α := (x + lam) / (4 : α)
+/-! ### the Horner forms of Carlson's final series (used by `Model/RhumbExact.lean`, C09; the model of `EllipticFunction`
+itself is `Model/Elliptic.lean`, whose `rfTail`/`rjTail` are the same expressions) -/
 
 /-- numerator polynomial of `RF` (DLMF 19.36.1 in Horner form, as in the code) -/
 def rfTail (E2 E3 : α) : α :=
